@@ -1,6 +1,8 @@
 package props
 
 import (
+	"strconv"
+	"regexp"
 	"fmt"
 	"go/ast"
 	"go/constant"
@@ -440,6 +442,7 @@ func c20(c *core.Check) {
 		}
 	}
 
+	c20EscapeTerminator(c)
 	r4 := c.Rule("R4", "serializeStringValue escapes \", \\, LF, CR, FF; serializeURL additionally ', space, TAB, ( and ); serializeName passes through only [A-Za-z0-9_-] and non-ASCII", 3)
 	// an escaped leading digit (or control character) of an identifier is a hexadecimal escape: it must end with a space
 	if si := p.Fn("css/parser", "serializeIdentifier"); si == nil {
@@ -656,5 +659,44 @@ func c20(c *core.Check) {
 			}
 		}
 		r4.Cond(len(bad) == 0 && n >= 64, "serializeName passes through only name characters", p.Pos(fn.Pos()), fmt.Sprintf("%d pass-through characters, all in [A-Za-z0-9_-]", n), fmt.Sprintf("%d pass-through characters; outside the name set: %s", n, strings.Join(bad, " ")))
+	}
+}
+
+// c20EscapeTerminator: the serializer ends a hex escape with one space; the tokenizer must consume one and only one.
+func c20EscapeTerminator(c *core.Check) {
+	p := c.Prog
+	r := c.Rule("R5", "escape terminator: the serializers write a code point as `\\hex` followed by one space (a newline in a string is `\\A `), so the tokenizer's hex escape must consume at most one white-space character after the digits — the pattern hexEscapeRe, matched on inputs with zero, one and two following spaces — and consumeEscape must not skip further white space in a loop", 2)
+	init := p.VarInit("css/parser", "hexEscapeRe")
+	pat := ""
+	if call, ok := init.(*ast.CallExpr); ok && len(call.Args) == 1 {
+		if bl, ok := call.Args[0].(*ast.BasicLit); ok && bl.Kind == token.STRING {
+			pat, _ = strconv.Unquote(bl.Value)
+		}
+	}
+	if pat == "" {
+		r.Anchor("css/parser.hexEscapeRe (regexp.MustCompile of a string literal)")
+	} else if re, err := regexp.Compile(pat); err != nil {
+		r.Fail("css/parser.hexEscapeRe", p.Pos(init.Pos()), "the pattern does not compile: "+err.Error())
+	} else {
+		var bad []string
+		for _, tc := range []struct {
+			in   string
+			want int
+		}{{"41", 2}, {"41 b", 3}, {"41  b", 3}, {"A  x", 2}, {"A\n\nx", 2}, {"a\t b", 2}} {
+			got := -1
+			if loc := re.FindStringIndex(tc.in); loc != nil && loc[0] == 0 {
+				got = loc[1]
+			}
+			if got != tc.want {
+				bad = append(bad, fmt.Sprintf("%q consumes %d bytes, one optional white space after the digits gives %d", tc.in, got, tc.want))
+			}
+		}
+		r.Cond(len(bad) == 0, "css/parser.hexEscapeRe | one optional white space", p.Pos(init.Pos()), "the digits and at most one white-space character", strings.Join(bad, "; "))
+	}
+	if fn := p.Method("css/parser", "tokenizer", "consumeEscape"); fn == nil {
+		r.Anchor("css/parser.(*tokenizer).consumeEscape")
+	} else {
+		loops := core.Loops(fn)
+		r.Cond(len(loops) == 0, "css/parser.consumeEscape | no loop", p.Pos(fn.Pos()), "straight-line code: what the pattern matched is what is consumed", fmt.Sprintf("%d loop(s) in consumeEscape: white space after an escape may be consumed beyond the single terminator (`\"a\\A  b\"` would lose a space on re-parse)", len(loops)))
 	}
 }
